@@ -31,6 +31,8 @@ ReprFails(e) ==
 
 Fails(e) == CASE e.ev = "prefix" -> PrefixFails(e)
               [] e.ev = "repr" -> ReprFails(e)
+              [] e.ev = "prefixc" -> Tag(e.out = SetPrefix(e.addr, e.netid), "C11.prefix")          \* results of calls that overlapped with calls for OTHER NetIDs
+                                     \o Tag(e.isnet = TRUE /\ e.isnetin = IsNetID(e.addr, e.netid), "C11.member")
               [] e.ev = "hang" -> <<e.prop \o ".hang">>    \* a call that never returned (recorded by the watchdog of the harness)
               [] OTHER -> <<"unknown-event">>
 Init == l = 1 /\ nfail = 0
